@@ -446,8 +446,9 @@ def generate(rng, tier, outdir):
 
     jobs = []
     for g in range(1, gmax_full + 1):
-        for nq, ops in small_circuits(g):
-            for W in range(1, nq + 1):
+        for ci, (nq, ops) in enumerate(small_circuits(g)):
+            # quick tier, 3 gates: every circuit and cut-kind combination, but one width per circuit (rotating over 1..n)
+            for W in ([1 + ci % nq] if (quick and g == 3) else range(1, nq + 1)):
                 for lo in LO:
                     inp = small_case(nq, ops, W, lo, it)
                     if g == 4 or (quick and g == 3):
@@ -544,7 +545,7 @@ def generate(rng, tier, outdir):
              "(1b) corpus of %d circuits of the bounded space whose every brute-force optimum wire-cuts a qubit and later gate-cuts a gate touching "
              "the re-wired qubit (gate and wire cuts allowed, tight W, unrestricted search, 2 seeds; quick tier: the first 60 and every third); "
              "(2) bounded-exhaustive: every circuit up to qubit relabelling on <=4 qubits with <=%s two-qubit gates from {cx: gamma 3, swap: gamma 7}"
-             "%s, every W in 1..n and every cut-kind combination, max_gamma/max_backjumps cycling through %s / %s so that every cut-kind combination "
+             "%s, every W in 1..n (quick tier, 3 gates: one W per circuit, rotating) and every cut-kind combination, max_gamma/max_backjumps cycling through %s / %s so that every cut-kind combination "
              "meets every limit, 2 seeds (1 seed for 4 gates and for 3 gates in the quick tier); searches beyond the model-evaluation budget are judged by the oracle only; "
              "(2b) random circuits of that space with 3-4 gates, W < n, max_gamma in {1,2} (limits below the optimum on purpose); "
              "(3) random circuits on 2..6 qubits with 1..7 two-qubit gates (idle qubits, arbitrary first use, one-qubit gates; half of them also "
